@@ -241,6 +241,9 @@ class Checker:
             new_pair = self.assumed_compatibilities.pop()
             assert pair == new_pair
 
+    def has_assumed_compatibilities(self) -> bool:
+        return bool(self.assumed_compatibilities)
+
     def display_value(self, value: Value) -> str:
         message = f"'{value!s}'"
         if isinstance(value, KnownValue):
